@@ -55,3 +55,10 @@ CORPUS = [
 
         # Check if there are additional capabilities""", "S"),
 ]
+# round 5 (C15.e): a response's capability dict is its own
+CORPUS += [
+    M("parsed-capabilities-cached-uncopied", C, "        self._parse_capabilities(payload)\n\n    @property\n    def raw_capabilities", "        self._parse_capabilities(payload)\n        CapabilitiesResponse._seen[bytes(payload)] = self._capabilities\n\n    @property\n    def raw_capabilities",
+      also=[(C, "    def __init__(self, payload: memoryview) -> None:\n        super().__init__(payload)\n\n        self._capabilities = {}", "    _seen: dict = {}\n\n    def __init__(self, payload: memoryview) -> None:\n        super().__init__(payload)\n\n        self._capabilities = {}")]),
+    M("n-parsed-capabilities-cached-as-copy", C, "        self._parse_capabilities(payload)\n\n    @property\n    def raw_capabilities", "        self._parse_capabilities(payload)\n        CapabilitiesResponse._seen[bytes(payload)] = dict(self._capabilities)\n\n    @property\n    def raw_capabilities", "S",
+      also=[(C, "    def __init__(self, payload: memoryview) -> None:\n        super().__init__(payload)\n\n        self._capabilities = {}", "    _seen: dict = {}\n\n    def __init__(self, payload: memoryview) -> None:\n        super().__init__(payload)\n\n        self._capabilities = {}")]),
+]
